@@ -7,6 +7,8 @@ import (
 	"math/big"
 	"strconv"
 	"strings"
+
+	"golang.org/x/tools/go/ssa"
 )
 
 // HeapView gives the SMT term of the current version of a named heap.
@@ -41,6 +43,7 @@ type SpecEnv struct {
 	Fuel  string // fuel term passed to recursive spec functions (inside their own definitions)
 	DcsOf types.Type // set while the body of the generated dcs_<T> is being evaluated
 	dcsEntered bool
+	FnScope *types.Scope // scope of the function whose contract is evaluated: types declared inside its body can be named
 }
 
 func (e *SpecEnv) clone() *SpecEnv {
@@ -58,7 +61,54 @@ func (e *SpecEnv) fail(format string, a ...interface{}) {
 
 // ResolveType resolves a textual type reference.
 func (e *SpecEnv) ResolveType(t string) types.Type {
+	if e.FnScope != nil {
+		// a type declared in the body of the function under contract (e.g. the local XML wrapper struct a
+		// serialiser marshals): `x.(T)`, `typeIs`-free; pointer/slice prefixes are resolved around it.
+		pre := ""
+		base := t
+		for strings.HasPrefix(base, "*") || strings.HasPrefix(base, "[]") {
+			if base[0] == '*' {
+				pre, base = pre+"*", base[1:]
+			} else {
+				pre, base = pre+"[]", base[2:]
+			}
+		}
+		if lt := lookupLocalType(e.FnScope, base); lt != nil {
+			var r types.Type = lt
+			for i := len(pre); i > 0; {
+				if pre[i-1] == '*' {
+					r, i = types.NewPointer(r), i-1
+				} else {
+					r, i = types.NewSlice(r), i-2
+				}
+			}
+			return r
+		}
+	}
 	return resolveTypeText(e.Pkg, t)
+}
+
+// lookupLocalType finds the type named `name` declared in scope sc or a scope nested in it; a name declared
+// more than once in different nested scopes is ambiguous and rejected.
+func lookupLocalType(sc *types.Scope, name string) types.Type {
+	var found []types.Type
+	var walk func(s *types.Scope)
+	walk = func(s *types.Scope) {
+		if o, ok := s.Lookup(name).(*types.TypeName); ok {
+			found = append(found, o.Type())
+		}
+		for i := 0; i < s.NumChildren(); i++ {
+			walk(s.Child(i))
+		}
+	}
+	walk(sc)
+	if len(found) > 1 {
+		panic(ErrSubset{"spec: local type " + name + " is declared more than once in the function"})
+	}
+	if len(found) == 1 {
+		return found[0]
+	}
+	return nil
 }
 
 func resolveTypeText(pkg *types.Package, t string) types.Type {
@@ -1004,6 +1054,20 @@ func (e *SpecEnv) evalCall(x SCall) SV {
 	case "isElem":
 		// isElem(p): p points into a slice backing array (not a separately allocated object)
 		return SV{Term: fmt.Sprintf("((_ is elem) %s)", e.refOf(arg(0))), Typ: boolT}
+	case "arrOf":
+		// arrOf(p): identity of the backing array p points into (meaningful when isElem(p); compare with arr(s))
+		return SV{Term: fmt.Sprintf("(earr %s)", e.refOf(arg(0))), Typ: intT}
+	case "deref":
+		// deref(p): the value of the cell a pointer to a non-struct type points at (p of type *T; for slice
+		// elements the cell that s[i] reads) - lets a frame clause speak about every cell of an element type:
+		// forall p *any :: {deref(p)} allocated(p) && !(isElem(p) && arrOf(p) == old(arr(s))) ==> deref(p) == old(deref(p))
+		v := arg(0)
+		pt, ok := v.Typ.Underlying().(*types.Pointer)
+		if !ok || isStruct(pt.Elem()) {
+			e.fail("deref wants a pointer to a non-struct type, got %v", v.Typ)
+		}
+		h := e.G.TE.CellHeap(pt.Elem())
+		return SV{Term: fmt.Sprintf("(select %s %s)", e.Cur.Heap(h), v.Term), Typ: pt.Elem()}
 	case "unchangedExcept":
 		// unchangedExcept("T.f", "U.g", ...): every heap but the listed is equal on allocated refs
 		ex := map[string]bool{}
@@ -1229,4 +1293,15 @@ func isInt(t types.Type) bool {
 	}
 	b, ok := t.Underlying().(*types.Basic)
 	return ok && b.Info()&types.IsInteger != 0
+}
+
+// fnScope: the types.Scope of a source function (nil for synthetic functions).
+func fnScope(fn *ssa.Function) *types.Scope {
+	if fn == nil {
+		return nil
+	}
+	if o, ok := fn.Object().(*types.Func); ok && o != nil {
+		return o.Scope()
+	}
+	return nil
 }
